@@ -8,6 +8,7 @@ import (
 	"io"
 	"os"
 	"sort"
+	"sync"
 )
 
 // Kinds of blocking / synchronisation points (second argument of Pre).
@@ -18,6 +19,7 @@ const (
 	KSelect
 	KRange
 	KGo
+	KSync
 )
 
 // Hooks installed by the engine. All nil by default.
@@ -210,4 +212,253 @@ func Args() []string {
 		return f()
 	}
 	return os.Args
+}
+
+// ---------------------------------------------------------------------------
+// sync primitives. gsinstr replaces the blocking methods of sync.WaitGroup, Mutex, RWMutex, Once and
+// Cond by the functions below. Without an engine each one is the original call. With an engine,
+// WaitGroup.Wait (which blocks durably inside a synctest bubble) is bracketed like a channel operation;
+// the others would block in a way the bubble cannot see, so contention is emulated: a task that cannot
+// proceed waits, at an instrumented blocking point, for the next release by any task and tries again
+// when the scheduler picks it.
+
+type onceState struct{ done, running bool }
+
+type condState struct{ waiters, permits int }
+
+var (
+	released chan struct{} // closed and replaced at every release; touched only by the task holding the token
+	onces    map[*sync.Once]*onceState
+	conds    map[*sync.Cond]*condState
+	// Exiting tells rewritten deferred calls of package main that the simulated os.Exit is unwinding
+	// the goroutine: a real os.Exit runs no deferred function.
+	ExitingHook func() bool
+)
+
+// ResetSync forgets the emulation state; the engine calls it when a world starts.
+func ResetSync() {
+	released = nil
+	onces = nil
+	conds = nil
+	SyncWaits = map[string]int{}
+}
+
+// SyncWaits counts, per primitive, how often a task had to wait (read by the engine after a world).
+var SyncWaits = map[string]int{}
+
+func releaseChan() chan struct{} {
+	if released == nil {
+		released = make(chan struct{})
+	}
+	return released
+}
+
+func broadcastRelease() {
+	if PreHook == nil {
+		return
+	}
+	if old := released; old != nil {
+		released = nil
+		close(old)
+	}
+}
+
+// await runs one attempt-or-wait round: try() is evaluated at a scheduling point; if it fails the
+// task blocks until some task releases something.
+func await(site int32, real func(), try func() bool) {
+	h := Pre(site, KSync)
+	if h == nil {
+		real()
+		return
+	}
+	for {
+		if try() {
+			Post(h, site)
+			return
+		}
+		SyncWaits["lock"]++
+		<-releaseChan()
+		Post(h, site)
+		h = Pre(site, KSync)
+		if h == nil { // the task is being torn down
+			real()
+			return
+		}
+	}
+}
+
+func WGWait(wg *sync.WaitGroup, site int32) {
+	h := Pre(site, KSync)
+	if h != nil {
+		SyncWaits["waitgroup-wait"]++
+	}
+	wg.Wait()
+	Post(h, site)
+}
+
+func MutexLock(mu *sync.Mutex, site int32) { await(site, mu.Lock, mu.TryLock) }
+
+func MutexUnlock(mu *sync.Mutex) {
+	mu.Unlock()
+	broadcastRelease()
+}
+
+func RWLock(mu *sync.RWMutex, site int32) { await(site, mu.Lock, mu.TryLock) }
+
+func RWUnlock(mu *sync.RWMutex) {
+	mu.Unlock()
+	broadcastRelease()
+}
+
+func RWRLock(mu *sync.RWMutex, site int32) { await(site, mu.RLock, mu.TryRLock) }
+
+func RWRUnlock(mu *sync.RWMutex) {
+	mu.RUnlock()
+	broadcastRelease()
+}
+
+func LockerLock(l sync.Locker, site int32) {
+	switch m := l.(type) {
+	case *sync.Mutex:
+		MutexLock(m, site)
+	case *sync.RWMutex:
+		RWLock(m, site)
+	default:
+		l.Lock()
+	}
+}
+
+func LockerUnlock(l sync.Locker) {
+	l.Unlock()
+	broadcastRelease()
+}
+
+func OnceDo(o *sync.Once, f func(), site int32) {
+	h := Pre(site, KSync)
+	if h == nil {
+		o.Do(f)
+		return
+	}
+	if onces == nil {
+		onces = map[*sync.Once]*onceState{}
+	}
+	st := onces[o]
+	if st == nil {
+		st = &onceState{}
+		onces[o] = st
+	}
+	for st.running { // another task is inside f: Do returns only when f has returned
+		SyncWaits["once"]++
+		<-releaseChan()
+		Post(h, site)
+		h = Pre(site, KSync)
+		if h == nil {
+			return
+		}
+	}
+	st.running = true
+	Post(h, site)
+	defer func() {
+		st.running = false
+		broadcastRelease()
+	}()
+	o.Do(f) // nobody else is inside: the real Once cannot block
+}
+
+func condOf(c *sync.Cond) *condState {
+	if conds == nil {
+		conds = map[*sync.Cond]*condState{}
+	}
+	st := conds[c]
+	if st == nil {
+		st = &condState{}
+		conds[c] = st
+	}
+	return st
+}
+
+func CondWait(c *sync.Cond, site int32) {
+	if PreHook == nil {
+		c.Wait()
+		return
+	}
+	h := Pre(site, KSync)
+	if h == nil {
+		c.Wait()
+		return
+	}
+	st := condOf(c)
+	st.waiters++
+	LockerUnlock(c.L)
+	for st.permits == 0 {
+		SyncWaits["cond"]++
+		<-releaseChan()
+		Post(h, site)
+		h = Pre(site, KSync)
+		if h == nil {
+			return
+		}
+	}
+	st.permits--
+	st.waiters--
+	Post(h, site)
+	LockerLock(c.L, site)
+}
+
+func CondSignal(c *sync.Cond) {
+	if PreHook == nil {
+		c.Signal()
+		return
+	}
+	if st := condOf(c); st.waiters > st.permits {
+		st.permits++
+		broadcastRelease()
+	}
+}
+
+func CondBroadcast(c *sync.Cond) {
+	if PreHook == nil {
+		c.Broadcast()
+		return
+	}
+	if st := condOf(c); st.waiters > st.permits {
+		st.permits = st.waiters
+		broadcastRelease()
+	}
+}
+
+// Exiting is tested by the rewritten deferred calls of package main.
+func Exiting() bool {
+	if h := ExitingHook; h != nil {
+		return h()
+	}
+	return false
+}
+
+// OutFile stands for os.Stdout / os.Stderr in the rewritten main.go, wherever they are mentioned
+// (also in package-level initialisers, which run before any world exists): it forwards to the
+// current world's stream at the time of each call.
+type OutFile struct{ err bool }
+
+var (
+	StdoutFile = &OutFile{}
+	StderrFile = &OutFile{err: true}
+)
+
+func (f *OutFile) w() io.Writer {
+	if f.err {
+		return Stderr()
+	}
+	return Stdout()
+}
+
+func (f *OutFile) Write(p []byte) (int, error)       { return f.w().Write(p) }
+func (f *OutFile) WriteString(s string) (int, error) { return io.WriteString(f.w(), s) }
+func (f *OutFile) Sync() error                       { return nil }
+func (f *OutFile) Close() error                      { return nil }
+func (f *OutFile) Name() string {
+	if f.err {
+		return "/dev/stderr"
+	}
+	return "/dev/stdout"
 }
